@@ -1,0 +1,29 @@
+//! Verification-only event sink (compiled only with `--cfg rustpython_parser_verif`).
+//!
+//! Hooks call [`emit`] at their linearization point (the return of the hooked call); nothing is
+//! recorded unless a test harness installed a sink with [`start`] on the current thread.
+use std::cell::RefCell;
+
+thread_local! {
+    static SINK: RefCell<Option<Vec<String>>> = const { RefCell::new(None) };
+}
+
+/// Install an empty sink on this thread (events are recorded from now on).
+pub fn start() {
+    SINK.with(|s| *s.borrow_mut() = Some(Vec::new()));
+}
+
+/// Remove the sink and return what it recorded (one JSON object per event).
+pub fn take() -> Vec<String> {
+    SINK.with(|s| s.borrow_mut().take().unwrap_or_default())
+}
+
+/// Record one event; the closure is only evaluated when a sink is installed.
+#[inline]
+pub fn emit(event: impl FnOnce() -> String) {
+    SINK.with(|s| {
+        if let Some(v) = s.borrow_mut().as_mut() {
+            v.push(event());
+        }
+    });
+}
